@@ -3,6 +3,16 @@
 import json, subprocess, sys
 
 CHECKS = {
+ "C09": dict(cat="exploration", tech="reference-model monitor over instrumented handlers: exhaustive small batches, random long ones, a sample over a real server connection",
+   text="Every batch of length <=3 (quick) / <=4 (thorough) over 6 per-item outcomes x 4 continuation options x version ok/not x count ok/not x ids yes/no (8288 / 49760 cases) plus 3k/200k random batches up to 40 items run through BatchExecutor.HandleRequest with handlers that record their invocations; response shape (item count, order, echoed operation and id, batch count, version, success/failure) and the handler trace are compared with an executable reference model; ~1000 batches also cross a real kmipserver connection. Exhaustive inside the stated bounds.",
+   note="Only what the property states is compared (not reason codes or messages).", ref="§2 C09"),
+ "C13": dict(cat="exploration", tech="exhaustive configuration enumeration against scripted and library servers, compared with a reference function; request headers recorded at the server",
+   text="All 31 x 32 client/server version subsets x 5 server behaviours x enforced/not (9920 Dials) against a scripted server that records every request header, each followed by two requests and a cloned client, plus 31 x 31 against the library's own executor restricted by SetSupportedProtocolVersions; adopted version, failure cases, membership in the configured set and the version carried by every later request are compared with a 10-line reference function. Exhaustive over the stated configuration space.",
+   note="Where the library's own server rejects the 1.1 discovery message itself only 'if Dial succeeds the version is right' is required.", ref="§2 C13"),
+ "C19": dict(cat="exploration", tech="trace monitor: instrumented middleware stages vs a reference interpreter, all programs up to a length bound for three chains, also under 16 concurrent requests with the race detector",
+   text="All 820 (quick) / 7381 (thorough) programs over 9 stage kinds for the client chain, the server message chain and the server batch-item chain; each request's enter/core/exit trace (message id and context marker seen by every stage and by the transport/handler) must equal the reference interpreter's, event for event, alone and when 16 goroutines share the chain. Exhaustive inside the length bound.",
+   note="The client chain's core (scripted server) cannot observe the context marker.", ref="§2 C19"),
+
  "C20": dict(cat="exploration", tech="cross-process differential monitor (fresh sequential process vs cold concurrent processes vs reused-encoder histories) plus the Go race detector",
    text="A fixed seeded list of 600/1600 encode and decode cases (messages at 5 versions, all 54 headerless payload types, attributes, objects; binary/XML/JSON/text; decode inputs from the harness's own writers so processes stay cold) is run sequentially in one fresh process, then in 6/120 fresh cold processes by 16..128 goroutines released together, each in its own seeded order (plans built under contention, distinct first-use orders recorded), and in 4/60 processes through reused cleared encoders and decoders fed concatenated items. Every result is compared with the fresh sequential process and with an in-process sequential pass; any race report with a library frame is a violation.",
    note="Interleavings are sampled; what the race detector did not observe is not excluded.", ref="§2 C20"),
